@@ -1,0 +1,889 @@
+//! Verification hook (only built with `--cfg sccache_verif`):
+//! `sccache-dist __verif_paths <leg>` reads one case per stdin line and prints one observation per line.
+//!
+//! * leg `calc`: the pure path computations of the build server on client supplied strings
+//!   (`join_suffix`, the toolchain id check, `make_lru_key_path` and the paths `prepare_overlay_dirs` /
+//!   `perform_build` derive from them), with real `Path`/`PathBuf` arithmetic.
+//! * leg `fs`: a real `Server` with a real `TcCache` and a real `OverlayBuilder` inside a scratch root; jobs go
+//!   through the real `handle_assign_job` / `handle_submit_toolchain` / `handle_run_job`.  Only bubblewrap is
+//!   replaced: the "bwrap" handed to the builder is a script that re-enters this binary (`fakejob`), which takes
+//!   a snapshot of the job's root and performs the file writes the case asks for, confined to that root.
+//!   After every job the scratch root is walked and everything created, changed or removed outside the
+//!   toolchain cache, the unpacked toolchains and the builds directory is reported.
+//!
+//! The case / observation syntax is the `Sx` format of the verification framework (numbers, `#hex` byte
+//! strings, identifiers, parenthesised lists); a small parser is included so that the repository stays
+//! self-contained.
+
+use crate::build;
+use sccache::dist::{
+    CompileCommand, InputsReader, JobId, JobState, RunJobResult, ServerIncoming, ServerOutgoing,
+    SubmitToolchainResult, Toolchain, ToolchainReader, UpdateJobStateResult,
+};
+use std::collections::BTreeMap;
+use std::ffi::OsStr;
+use std::fmt;
+use std::io::{BufRead, Write};
+use std::os::unix::ffi::OsStrExt;
+use std::os::unix::fs::PermissionsExt;
+use std::path::{Component, Path, PathBuf};
+
+// ------------------------------------------------------------------ Sx
+
+#[derive(Clone, Debug, PartialEq, Eq)]
+pub enum Sx {
+    N(u128),
+    B(Vec<u8>),
+    L(Vec<Sx>),
+}
+
+fn is_ident(b: &[u8]) -> bool {
+    if b.is_empty() {
+        return false;
+    }
+    let c0 = b[0];
+    if !(c0.is_ascii_alphabetic() || c0 == b'_') {
+        return false;
+    }
+    b.iter()
+        .all(|&c| c.is_ascii_alphanumeric() || matches!(c, b'_' | b'.' | b'/' | b'+' | b'-'))
+}
+
+impl fmt::Display for Sx {
+    fn fmt(&self, f: &mut fmt::Formatter<'_>) -> fmt::Result {
+        match self {
+            Sx::N(n) => write!(f, "{}", n),
+            Sx::B(b) => {
+                if is_ident(b) {
+                    write!(f, "{}", std::str::from_utf8(b).unwrap())
+                } else {
+                    write!(f, "#")?;
+                    for c in b {
+                        write!(f, "{:02x}", c)?;
+                    }
+                    Ok(())
+                }
+            }
+            Sx::L(l) => {
+                write!(f, "(")?;
+                for (i, x) in l.iter().enumerate() {
+                    if i > 0 {
+                        write!(f, " ")?;
+                    }
+                    write!(f, "{}", x)?;
+                }
+                write!(f, ")")
+            }
+        }
+    }
+}
+
+impl Sx {
+    fn sym(s: &str) -> Sx {
+        Sx::B(s.as_bytes().to_vec())
+    }
+    fn list(&self) -> &[Sx] {
+        match self {
+            Sx::L(l) => l,
+            _ => &[],
+        }
+    }
+    fn bytes(&self) -> &[u8] {
+        match self {
+            Sx::B(b) => b,
+            _ => &[],
+        }
+    }
+    fn num(&self) -> u128 {
+        match self {
+            Sx::N(n) => *n,
+            _ => 0,
+        }
+    }
+    fn tag(&self) -> String {
+        self.list()
+            .first()
+            .map(|x| String::from_utf8_lossy(x.bytes()).into_owned())
+            .unwrap_or_default()
+    }
+    fn arg(&self, i: usize) -> &Sx {
+        static NIL: Sx = Sx::L(Vec::new());
+        self.list().get(i).unwrap_or(&NIL)
+    }
+    fn parse(s: &str) -> Result<Sx, String> {
+        let b = s.as_bytes();
+        let mut pos = 0;
+        let v = parse_at(b, &mut pos)?;
+        skip_ws(b, &mut pos);
+        if pos != b.len() {
+            return Err(format!("trailing input at {}", pos));
+        }
+        Ok(v)
+    }
+}
+
+fn skip_ws(b: &[u8], pos: &mut usize) {
+    while *pos < b.len() && b[*pos].is_ascii_whitespace() {
+        *pos += 1;
+    }
+}
+
+fn hexval(c: u8) -> Option<u8> {
+    match c {
+        b'0'..=b'9' => Some(c - b'0'),
+        b'a'..=b'f' => Some(c - b'a' + 10),
+        b'A'..=b'F' => Some(c - b'A' + 10),
+        _ => None,
+    }
+}
+
+fn parse_at(b: &[u8], pos: &mut usize) -> Result<Sx, String> {
+    skip_ws(b, pos);
+    if *pos >= b.len() {
+        return Err("unexpected end".into());
+    }
+    let c = b[*pos];
+    if c == b'(' {
+        *pos += 1;
+        let mut items = vec![];
+        loop {
+            skip_ws(b, pos);
+            if *pos >= b.len() {
+                return Err("unclosed (".into());
+            }
+            if b[*pos] == b')' {
+                *pos += 1;
+                return Ok(Sx::L(items));
+            }
+            items.push(parse_at(b, pos)?);
+        }
+    } else if c == b'#' {
+        *pos += 1;
+        let mut out = vec![];
+        while *pos < b.len() && hexval(b[*pos]).is_some() {
+            let h = hexval(b[*pos]).unwrap();
+            let l = match b.get(*pos + 1).and_then(|&c| hexval(c)) {
+                Some(l) => l,
+                None => return Err("odd hex".into()),
+            };
+            out.push(h * 16 + l);
+            *pos += 2;
+        }
+        Ok(Sx::B(out))
+    } else if c.is_ascii_digit() {
+        let st = *pos;
+        while *pos < b.len() && b[*pos].is_ascii_digit() {
+            *pos += 1;
+        }
+        let s = std::str::from_utf8(&b[st..*pos]).unwrap();
+        s.parse::<u128>().map(Sx::N).map_err(|e| e.to_string())
+    } else if c.is_ascii_alphabetic() || c == b'_' {
+        let st = *pos;
+        while *pos < b.len()
+            && (b[*pos].is_ascii_alphanumeric()
+                || matches!(b[*pos], b'_' | b'.' | b'/' | b'+' | b'-'))
+        {
+            *pos += 1;
+        }
+        Ok(Sx::B(b[st..*pos].to_vec()))
+    } else {
+        Err(format!("unexpected char {:?} at {}", c as char, *pos))
+    }
+}
+
+fn hex(b: &[u8]) -> String {
+    b.iter().map(|c| format!("{:02x}", c)).collect()
+}
+
+fn unhex(s: &str) -> Vec<u8> {
+    let b = s.as_bytes();
+    (0..b.len() / 2)
+        .map(|i| hexval(b[2 * i]).unwrap_or(0) * 16 + hexval(b[2 * i + 1]).unwrap_or(0))
+        .collect()
+}
+
+// ------------------------------------------------------------------ helpers
+
+fn catch<T, F: FnOnce() -> T>(f: F) -> Result<T, ()> {
+    std::panic::catch_unwind(std::panic::AssertUnwindSafe(f)).map_err(|_| ())
+}
+
+fn path_of(b: &[u8]) -> &Path {
+    Path::new(OsStr::from_bytes(b))
+}
+
+/// `Path::components()` as an Sx list: `root`, `cur`, `up`, or `(n #name)`.
+fn comps(p: &Path) -> Sx {
+    Sx::L(p
+        .components()
+        .map(|c| match c {
+            Component::Prefix(_) => Sx::sym("prefix"),
+            Component::RootDir => Sx::sym("root"),
+            Component::CurDir => Sx::sym("cur"),
+            Component::ParentDir => Sx::sym("up"),
+            Component::Normal(n) => Sx::L(vec![Sx::sym("n"), Sx::B(n.as_bytes().to_vec())]),
+        })
+        .collect())
+}
+
+fn err_sym(msg: &str) -> Sx {
+    // the refusals of the path checks, by kind
+    let kind = if msg.contains("NUL") {
+        "nul"
+    } else if msg.contains("`..`") {
+        "dotdot"
+    } else if msg.contains("toolchain id") {
+        "bad_id"
+    } else {
+        "other"
+    };
+    Sx::L(vec![Sx::sym("err"), Sx::sym(kind)])
+}
+
+fn ok(x: Sx) -> Sx {
+    Sx::L(vec![Sx::sym("ok"), x])
+}
+
+fn panic_sx() -> Sx {
+    Sx::L(vec![Sx::sym("panic")])
+}
+
+fn strings(x: &Sx) -> Option<Vec<String>> {
+    x.list()
+        .iter()
+        .map(|o| String::from_utf8(o.bytes().to_vec()).ok())
+        .collect()
+}
+
+// ------------------------------------------------------------------ leg calc
+
+/// The paths the overlay builder derives for one job, in the order it creates / opens them
+/// (`prepare_overlay_dirs`, then `perform_build`), using the real `join_suffix`.
+fn job_effects(dir: &Path, id: &str, n: u64, cwd: &str, outputs: &[String]) -> Result<Vec<Sx>, String> {
+    let mut eff = vec![];
+    let e = |k: &str, p: &Path| Sx::L(vec![Sx::sym(k), comps(p)]);
+    // prepare_overlay_dirs
+    let toolchain_dir = dir.join("toolchains").join(id);
+    eff.push(e("mkdir", &toolchain_dir));
+    let build_dir = dir.join("builds").join(format!("{}-{}", id, n));
+    eff.push(e("mkdir", &build_dir));
+    // perform_build
+    let work_dir = build_dir.join("work");
+    let upper_dir = build_dir.join("upper");
+    let target_dir = build_dir.join("target");
+    eff.push(e("mkdir", &work_dir));
+    eff.push(e("mkdir", &upper_dir));
+    eff.push(e("mkdir", &target_dir));
+    let cwd = Path::new(cwd);
+    eff.push(e("mkdir_all", &build::verif::join_suffix(&target_dir, cwd)?));
+    for path in outputs.iter() {
+        let output_parent = if let Some(p) = Path::new(path).parent() {
+            p
+        } else {
+            continue;
+        };
+        eff.push(e(
+            "mkdir_all",
+            &build::verif::join_suffix(&target_dir, &cwd.join(output_parent))?,
+        ));
+    }
+    for path in outputs.iter() {
+        eff.push(e(
+            "open",
+            &build::verif::join_suffix(&target_dir, &cwd.join(path))?,
+        ));
+    }
+    Ok(eff)
+}
+
+fn calc(case: &Sx) -> Sx {
+    match case.tag().as_str() {
+        // (join_suffix #base #suffix)
+        "join_suffix" => {
+            let base = path_of(case.arg(1).bytes()).to_owned();
+            let suffix = path_of(case.arg(2).bytes()).to_owned();
+            match catch(|| build::verif::join_suffix(&base, &suffix)) {
+                Ok(Ok(p)) => ok(comps(&p)),
+                Ok(Err(e)) => err_sym(&e),
+                Err(()) => panic_sx(),
+            }
+        }
+        // (check_id #id)
+        "check_id" => match String::from_utf8(case.arg(1).bytes().to_vec()) {
+            Ok(id) => Sx::N(Toolchain { archive_id: id }.archive_id_is_valid() as u128),
+            Err(_) => Sx::N(0), // not a String: cannot even be deserialised
+        },
+        // (lru_key #id)
+        "lru_key" => match String::from_utf8(case.arg(1).bytes().to_vec()) {
+            Ok(id) => match catch(|| sccache::dist::verif_make_lru_key_path(&id)) {
+                Ok(p) => ok(comps(&p)),
+                Err(()) => panic_sx(),
+            },
+            Err(_) => Sx::L(vec![Sx::sym("not_utf8")]),
+        },
+        // (components #p) / (join #a #b) / (parent #p): the std `Path` operations the builder relies on
+        "components" => comps(path_of(case.arg(1).bytes())),
+        "join" => comps(&path_of(case.arg(1).bytes()).join(path_of(case.arg(2).bytes()))),
+        "parent" => match path_of(case.arg(1).bytes()).parent() {
+            Some(p) => Sx::L(vec![comps(p)]),
+            None => Sx::L(vec![]),
+        },
+        // (job #dir #id n #cwd (#output ...)): id check, then every path of the job
+        "job" => {
+            let dir = path_of(case.arg(1).bytes()).to_owned();
+            let id = String::from_utf8(case.arg(2).bytes().to_vec());
+            let n = case.arg(3).num() as u64;
+            let cwd = String::from_utf8(case.arg(4).bytes().to_vec());
+            let outs = strings(case.arg(5));
+            match (id, cwd, outs) {
+                (Ok(id), Ok(cwd), Some(outs)) => {
+                    let r = catch(|| {
+                        if !(Toolchain {
+                            archive_id: id.clone(),
+                        })
+                        .archive_id_is_valid()
+                        {
+                            return Err("invalid toolchain id".to_owned());
+                        }
+                        job_effects(&dir, &id, n, &cwd, &outs)
+                    });
+                    match r {
+                        Ok(Ok(eff)) => ok(Sx::L(eff)),
+                        Ok(Err(e)) => err_sym(&e),
+                        Err(()) => panic_sx(),
+                    }
+                }
+                _ => Sx::L(vec![Sx::sym("not_utf8")]),
+            }
+        }
+        _ => Sx::L(vec![Sx::sym("bad_op")]),
+    }
+}
+
+// ------------------------------------------------------------------ leg fs
+
+const SECRET: &[u8] = b"SECRET";
+const TOOL: &[u8] = b"TOOL";
+
+struct NullRequester;
+impl ServerOutgoing for NullRequester {
+    fn do_update_job_state(&self, _: JobId, _: JobState) -> anyhow::Result<UpdateJobStateResult> {
+        Ok(UpdateJobStateResult::Success)
+    }
+}
+
+fn raw_header(name: &[u8], kind: tar::EntryType, size: u64, link: &[u8]) -> tar::Header {
+    let mut h = tar::Header::new_gnu();
+    {
+        let old = h.as_old_mut();
+        let n = name.len().min(99);
+        old.name[..n].copy_from_slice(&name[..n]);
+        let l = link.len().min(99);
+        old.linkname[..l].copy_from_slice(&link[..l]);
+    }
+    h.set_entry_type(kind);
+    h.set_size(size);
+    h.set_mode(if kind == tar::EntryType::Directory { 0o755 } else { 0o644 });
+    h.set_mtime(1_000_000_000);
+    h.set_uid(0);
+    h.set_gid(0);
+    h.set_cksum();
+    h
+}
+
+/// tar archive with exactly the given member names (no sanitising by the tar builder).
+/// members: `(file #name #content)`, `(dir #name)`, `(symlink #name #target)`, `(hardlink #name #target)`
+fn raw_tar(members: &[Sx]) -> Vec<u8> {
+    let mut b = tar::Builder::new(Vec::new());
+    for m in members {
+        let name = m.arg(1).bytes();
+        match m.tag().as_str() {
+            "file" => {
+                let data = m.arg(2).bytes();
+                b.append(&raw_header(name, tar::EntryType::Regular, data.len() as u64, b""), data)
+                    .unwrap()
+            }
+            "dir" => b
+                .append(&raw_header(name, tar::EntryType::Directory, 0, b""), &b""[..])
+                .unwrap(),
+            "symlink" => b
+                .append(
+                    &raw_header(name, tar::EntryType::Symlink, 0, m.arg(2).bytes()),
+                    &b""[..],
+                )
+                .unwrap(),
+            "hardlink" => b
+                .append(
+                    &raw_header(name, tar::EntryType::Link, 0, m.arg(2).bytes()),
+                    &b""[..],
+                )
+                .unwrap(),
+            _ => {}
+        }
+    }
+    b.into_inner().unwrap()
+}
+
+fn toolchain_blob() -> Vec<u8> {
+    let tar = raw_tar(&[
+        Sx::L(vec![Sx::sym("dir"), Sx::sym("tc_bin")]),
+        Sx::L(vec![Sx::sym("file"), Sx::sym("tc_bin/tool"), Sx::B(TOOL.to_vec())]),
+        Sx::L(vec![Sx::sym("dir"), Sx::sym("tc_lib")]),
+    ]);
+    let mut enc = flate2::write::GzEncoder::new(Vec::new(), flate2::Compression::fast());
+    enc.write_all(&tar).unwrap();
+    enc.finish().unwrap()
+}
+
+/// every entry below `root` (not following symlinks): relative path -> (kind, content of small files)
+fn walk(root: &Path) -> BTreeMap<Vec<u8>, (char, Vec<u8>)> {
+    fn go(root: &Path, dir: &Path, out: &mut BTreeMap<Vec<u8>, (char, Vec<u8>)>) {
+        let rd = match std::fs::read_dir(dir) {
+            Ok(rd) => rd,
+            Err(_) => return,
+        };
+        for e in rd.flatten() {
+            let p = e.path();
+            let rel = p.strip_prefix(root).unwrap().as_os_str().as_bytes().to_vec();
+            let ft = match e.file_type() {
+                Ok(t) => t,
+                Err(_) => continue,
+            };
+            if ft.is_dir() {
+                out.insert(rel, ('d', vec![]));
+                go(root, &p, out);
+            } else if ft.is_symlink() {
+                let t = std::fs::read_link(&p).map(|t| t.as_os_str().as_bytes().to_vec()).unwrap_or_default();
+                out.insert(rel, ('l', t));
+            } else {
+                let c = std::fs::read(&p).unwrap_or_default();
+                out.insert(rel, ('f', c.into_iter().take(64).collect()));
+            }
+        }
+    }
+    let mut out = BTreeMap::new();
+    go(root, root, &mut out);
+    out
+}
+
+/// entries below `top` that are not below `skip`
+fn walk_above(top: &Path, skip: &Path) -> BTreeMap<Vec<u8>, (char, Vec<u8>)> {
+    let skip_rel = skip.strip_prefix(top).unwrap().as_os_str().as_bytes().to_vec();
+    walk(top)
+        .into_iter()
+        .filter(|(k, _)| !(k.starts_with(&skip_rel) && k.get(skip_rel.len()) == Some(&b'/')))
+        .collect()
+}
+
+fn allowed(rel: &[u8]) -> bool {
+    // the only places the server may write to: the toolchain cache, the unpacked toolchains, the builds
+    [
+        &b"srv/cache/tc"[..],
+        &b"srv/build/toolchains"[..],
+        &b"srv/build/builds"[..],
+        &b"log"[..],
+    ]
+    .iter()
+    .any(|a| rel == *a || (rel.starts_with(a) && rel.get(a.len()) == Some(&b'/')))
+}
+
+/// is a proper ancestor of `p` below `root` a symlink?
+fn through_link(root: &Path, p: &Path) -> bool {
+    let mut cur = root.to_owned();
+    let rel = match p.strip_prefix(root) {
+        Ok(r) => r.to_owned(),
+        Err(_) => return true,
+    };
+    let n = rel.components().count();
+    for (i, c) in rel.components().enumerate() {
+        if i + 1 == n {
+            break;
+        }
+        cur.push(c);
+        if std::fs::symlink_metadata(&cur).map(|m| m.file_type().is_symlink()).unwrap_or(false) {
+            return true;
+        }
+    }
+    false
+}
+
+/// The server's directories sit `NEST` levels below the temporary directory and a job root five levels below
+/// them: a link target is only admitted when it cannot lead out of the temporary directory (relative, at most
+/// twelve `..`, all of them leading).  Protects the machine the check runs on from the defects it looks for.
+fn safe_link_target(t: &[u8]) -> bool {
+    let p = path_of(t);
+    if p.has_root() {
+        // absolute targets: only names of the stand-in toolchain, which do not exist on the machine itself
+        return p.starts_with("/tc_bin") || p.starts_with("/tc_lib");
+    }
+    let mut ups = 0;
+    let mut seen_name = false;
+    for c in p.components() {
+        match c {
+            Component::ParentDir => {
+                if seen_name {
+                    return false;
+                }
+                ups += 1;
+            }
+            Component::Normal(_) => seen_name = true,
+            _ => {}
+        }
+    }
+    ups <= 12
+}
+
+/// `sccache-dist __verif_paths fakejob <target> <cwd> <exe> <args...>`: what the fake bwrap script runs
+/// in place of the sandboxed compiler.  args: `snap:<hex file>`, `w:<hex path>:<hex content>`,
+/// `l:<hex path>:<hex link target>`; paths are interpreted inside the job's root (`..` cannot leave it).
+fn fakejob(args: &[String]) -> i32 {
+    let target = Path::new(&args[0]);
+    let cwd = Path::new(&args[1]);
+    let inside = |p: &[u8]| -> PathBuf {
+        let full = cwd.join(path_of(p));
+        let mut stack: Vec<Vec<u8>> = vec![];
+        for c in full.components() {
+            match c {
+                Component::ParentDir => {
+                    stack.pop();
+                }
+                Component::Normal(n) => stack.push(n.as_bytes().to_vec()),
+                _ => {}
+            }
+        }
+        let mut r = target.to_owned();
+        for s in stack {
+            r.push(OsStr::from_bytes(&s));
+        }
+        r
+    };
+    for a in &args[3..] {
+        let parts: Vec<&str> = a.split(':').collect();
+        match parts[0] {
+            "snap" => {
+                let file = unhex(parts[1]);
+                let mut out = String::new();
+                out.push_str(&format!("target {}\n", hex(target.as_os_str().as_bytes())));
+                for (rel, (k, _)) in walk(target) {
+                    out.push_str(&format!("{} {}\n", k, hex(&rel)));
+                }
+                std::fs::write(path_of(&file), out).unwrap();
+            }
+            "w" => {
+                let p = inside(&unhex(parts[1]));
+                // never through a link: this stands in for a process that is confined to the root
+                if through_link(target, &p) {
+                    continue;
+                }
+                if let Some(d) = p.parent() {
+                    let _ = std::fs::create_dir_all(d);
+                }
+                if std::fs::symlink_metadata(&p).map(|m| m.file_type().is_symlink()).unwrap_or(false) {
+                    let _ = std::fs::remove_file(&p);
+                }
+                let _ = std::fs::write(&p, unhex(parts[2]));
+            }
+            "l" => {
+                let p = inside(&unhex(parts[1]));
+                if through_link(target, &p) {
+                    continue;
+                }
+                if let Some(d) = p.parent() {
+                    let _ = std::fs::create_dir_all(d);
+                }
+                let _ = std::os::unix::fs::symlink(path_of(&unhex(parts[2])), &p);
+            }
+            _ => {}
+        }
+    }
+    0
+}
+
+const NEST: usize = 40;
+/// where an absolute toolchain id / path of a case may point (seen and cleaned up like the scratch root)
+const ABS_ESCAPE: &str = "/dev/shm/vp-c19-abs-escape";
+
+struct World {
+    top: PathBuf,
+    root: PathBuf,
+    server: crate::Server,
+    blob: Vec<u8>,
+    baseline: BTreeMap<Vec<u8>, (char, Vec<u8>)>,
+    njob: u64,
+}
+
+impl World {
+    fn new() -> Result<World, String> {
+        let td = tempfile::Builder::new()
+            .prefix("vp-c19-")
+            .tempdir_in("/dev/shm")
+            .map_err(|e| e.to_string())?;
+        // The server's directories sit 40 levels below the temporary directory, so that a defect of the kind
+        // this check looks for (a path with many `..`, a link pointing upwards) lands inside the temporary
+        // directory - where it is seen and cleaned up - and not on the machine running the check.
+        let top = td.into_path();
+        let mut root = top.clone();
+        for _ in 0..NEST {
+            root.push("d");
+        }
+        std::fs::create_dir_all(&root).map_err(|e| e.to_string())?;
+        let mk = |p: &str| std::fs::create_dir_all(root.join(p)).map_err(|e| e.to_string());
+        mk("srv/cache")?;
+        mk("log")?;
+        mk("etc")?;
+        std::fs::write(root.join("secret"), SECRET).map_err(|e| e.to_string())?;
+        std::fs::write(root.join("srv/secret"), SECRET).map_err(|e| e.to_string())?;
+        std::fs::write(root.join("etc/passwd"), SECRET).map_err(|e| e.to_string())?;
+        let exe = std::env::current_exe().map_err(|e| e.to_string())?;
+        let bwrap = root.join("bwrap");
+        std::fs::write(
+            &bwrap,
+            format!(
+                "#!/bin/sh\nif [ \"$1\" = \"--version\" ]; then echo 'bubblewrap 0.8.0'; exit 0; fi\n\
+                 target=; cwd=\nwhile [ $# -gt 0 ]; do case \"$1\" in\n\
+                 --bind) target=\"$2\"; shift 3;;\n--chdir) cwd=\"$2\"; shift 2;;\n--) shift; break;;\n\
+                 --cap-drop|--proc|--dev) shift 2;;\n--setenv) shift 3;;\n*) shift;;\nesac; done\n\
+                 exec '{}' __verif_paths fakejob \"$target\" \"$cwd\" \"$@\"\n",
+                exe.display()
+            ),
+        )
+        .map_err(|e| e.to_string())?;
+        std::fs::set_permissions(&bwrap, std::fs::Permissions::from_mode(0o755)).map_err(|e| e.to_string())?;
+        let builder = build::OverlayBuilder::new(bwrap, root.join("srv/build")).map_err(|e| format!("{:#}", e))?;
+        let server = crate::Server::new(Box::new(builder), &root.join("srv/cache"), 1 << 30)
+            .map_err(|e| format!("{:#}", e))?;
+        let blob = toolchain_blob();
+        let baseline = walk(&root);
+        Ok(World {
+            top,
+            root,
+            server,
+            blob,
+            baseline,
+            njob: 0,
+        })
+    }
+
+    /// everything that differs from the baseline outside the allowed places
+    fn escapes(&self) -> Vec<Sx> {
+        let now = walk(&self.root);
+        let mut out = vec![];
+        for (rel, v) in &now {
+            if allowed(rel) || rel == b"bwrap" {
+                continue;
+            }
+            match self.baseline.get(rel) {
+                Some(b) if b == v => {}
+                Some(_) => out.push(Sx::L(vec![Sx::sym("changed"), Sx::B(rel.clone())])),
+                None => out.push(Sx::L(vec![Sx::sym("created"), Sx::B(rel.clone())])),
+            }
+        }
+        for rel in self.baseline.keys() {
+            if !now.contains_key(rel) && !allowed(rel) {
+                out.push(Sx::L(vec![Sx::sym("removed"), Sx::B(rel.clone())]));
+            }
+        }
+        // above the server's part of the scratch directory there is only the chain of `d` directories
+        let chain: Vec<u8> = vec![&b"d"[..]; NEST].join(&b'/');
+        for (rel, _) in walk_above(&self.top, &self.root) {
+            if !(chain.starts_with(&rel) && (rel.len() == chain.len() || chain[rel.len()] == b'/')) {
+                let mut p = b"<above>/".to_vec();
+                p.extend_from_slice(&rel);
+                out.push(Sx::L(vec![Sx::sym("created"), Sx::B(p)]));
+            }
+        }
+        if Path::new(ABS_ESCAPE).exists() {
+            out.push(Sx::L(vec![Sx::sym("created"), Sx::B(ABS_ESCAPE.as_bytes().to_vec())]));
+        }
+        out
+    }
+
+    /// `(job #id genuine do_run #cwd (#output ...) (input member ...) (write ...))`
+    fn job(&mut self, op: &Sx) -> Sx {
+        self.njob += 1;
+        let job_id = JobId(self.njob);
+        // arg 2 ("the uploaded archive hashes to this id") is information for the model only
+        let do_run = op.arg(3).num() != 0;
+        let id = match String::from_utf8(op.arg(1).bytes().to_vec()) {
+            Ok(s) => s,
+            Err(_) => return Sx::L(vec![Sx::sym("not_utf8")]),
+        };
+        let cwd = String::from_utf8(op.arg(4).bytes().to_vec());
+        let outs = strings(op.arg(5));
+        let (cwd, outs) = match (cwd, outs) {
+            (Ok(c), Some(o)) => (c, o),
+            _ => return Sx::L(vec![Sx::sym("not_utf8")]),
+        };
+        let tc = Toolchain { archive_id: id };
+        let requester = NullRequester;
+
+        // assign
+        let (assign, need) = match catch(|| self.server.handle_assign_job(job_id, tc.clone())) {
+            Ok(Ok(r)) => (if r.need_toolchain { "need_tc" } else { "ready" }, r.need_toolchain),
+            Ok(Err(_)) => ("err", true),
+            Err(()) => ("panic", true),
+        };
+        // submit
+        let submit = if need {
+            let rdr = ToolchainReader::verif_new(Box::new(&self.blob[..]));
+            match catch(|| self.server.handle_submit_toolchain(&requester, job_id, rdr)) {
+                Ok(Ok(SubmitToolchainResult::Success)) => "success",
+                Ok(Ok(SubmitToolchainResult::JobNotFound)) => "job_not_found",
+                Ok(Ok(SubmitToolchainResult::CannotCache)) => "cannot_cache",
+                Ok(Err(_)) => "err",
+                Err(()) => "panic",
+            }
+        } else {
+            "skipped"
+        };
+        // run
+        let snapfile = self.root.join("log").join(format!("snap-{}", self.njob));
+        let mut run = "skipped";
+        let mut outputs = vec![];
+        if do_run {
+            let mut arguments = vec![format!("snap:{}", hex(snapfile.as_os_str().as_bytes()))];
+            for w in op.arg(7).list() {
+                let k = if w.tag() == "symlink" { "l" } else { "w" };
+                arguments.push(format!("{}:{}:{}", k, hex(w.arg(1).bytes()), hex(w.arg(2).bytes())));
+            }
+            let command = CompileCommand {
+                executable: "job".to_owned(),
+                arguments,
+                env_vars: vec![],
+                cwd,
+            };
+            let inputs = raw_tar(op.arg(6).list());
+            let rdr = InputsReader::verif_new(Box::new(std::io::Cursor::new(inputs)));
+            run = match catch(|| self.server.handle_run_job(&requester, job_id, command, outs, rdr)) {
+                Ok(Ok(RunJobResult::JobNotFound)) => "job_not_found",
+                Ok(Ok(RunJobResult::Complete(c))) => {
+                    for (p, d) in c.outputs {
+                        outputs.push(Sx::L(vec![
+                            Sx::B(p.into_bytes()),
+                            Sx::B(d.verif_bytes().unwrap_or_else(|_| b"<unreadable>".to_vec())),
+                        ]));
+                    }
+                    "complete"
+                }
+                Ok(Err(_)) => "err",
+                Err(()) => "panic",
+            };
+        }
+        // what the job saw when it started
+        let mut build = Sx::L(vec![]);
+        let mut snap = vec![];
+        if let Ok(s) = std::fs::read_to_string(&snapfile) {
+            for line in s.lines() {
+                let mut it = line.splitn(2, ' ');
+                let k = it.next().unwrap_or("");
+                let v = unhex(it.next().unwrap_or(""));
+                if k == "target" {
+                    let rel = path_of(&v).strip_prefix(&self.root).map(|p| p.to_owned()).unwrap_or_default();
+                    build = Sx::B(rel.as_os_str().as_bytes().to_vec());
+                } else {
+                    snap.push(Sx::L(vec![Sx::sym(k), Sx::B(v)]));
+                }
+            }
+            let _ = std::fs::remove_file(&snapfile);
+        }
+        // leftovers of the job below builds/
+        let left: Vec<Sx> = walk(&self.root.join("srv/build/builds"))
+            .into_keys()
+            .map(Sx::B)
+            .collect();
+        let listing = |sub: &str| -> Sx {
+            Sx::L(walk(&self.root.join(sub))
+                .into_iter()
+                .map(|(k, (kind, c))| {
+                    Sx::L(vec![
+                        Sx::sym(&kind.to_string()),
+                        Sx::B(k),
+                        Sx::B(if sub.ends_with("toolchains") { c } else { vec![] }),
+                    ])
+                })
+                .collect())
+        };
+        let toolchains = listing("srv/build/toolchains");
+        let cache = listing("srv/cache/tc");
+        Sx::L(vec![
+            Sx::sym("job"),
+            Sx::L(vec![Sx::sym("assign"), Sx::sym(assign)]),
+            Sx::L(vec![Sx::sym("submit"), Sx::sym(submit)]),
+            Sx::L(vec![Sx::sym("run"), Sx::sym(run)]),
+            Sx::L(vec![Sx::sym("target"), build]),
+            Sx::L(vec![Sx::sym("snap"), Sx::L(snap)]),
+            Sx::L(vec![Sx::sym("outputs"), Sx::L(outputs)]),
+            Sx::L(vec![Sx::sym("left"), Sx::L(left)]),
+            Sx::L(vec![Sx::sym("toolchains"), toolchains]),
+            Sx::L(vec![Sx::sym("cache"), cache]),
+            Sx::L(vec![Sx::sym("escaped"), Sx::L(self.escapes())]),
+        ])
+    }
+}
+
+impl Drop for World {
+    fn drop(&mut self) {
+        let _ = std::fs::remove_dir_all(&self.top);
+        let _ = std::fs::remove_dir_all(ABS_ESCAPE);
+    }
+}
+
+/// case = `( (job ...) ... )`: a sequence of jobs on one fresh server
+fn fs_case(case: &Sx) -> Sx {
+    for job in case.list() {
+        for m in job.arg(6).list().iter().chain(job.arg(7).list()) {
+            if matches!(m.tag().as_str(), "symlink" | "hardlink") && !safe_link_target(m.arg(2).bytes()) {
+                return Sx::L(vec![Sx::sym("unsafe_case")]);
+            }
+        }
+    }
+    let mut w = match World::new() {
+        Ok(w) => w,
+        Err(e) => return Sx::L(vec![Sx::sym("env_unsupported"), Sx::B(e.into_bytes())]),
+    };
+    Sx::L(case.list().iter().map(|op| w.job(op)).collect())
+}
+
+// ------------------------------------------------------------------ entry
+
+pub fn main(args: &[String]) -> i32 {
+    let leg = args.first().map(|s| s.as_str()).unwrap_or("");
+    if leg == "fakejob" {
+        return fakejob(&args[1..]);
+    }
+    std::panic::set_hook(Box::new(|_| {}));
+    if leg == "digest" {
+        // the id of the toolchain archive used by the fs leg, as the real code computes it
+        println!("{}", sccache::util::Digest::reader_sync(&toolchain_blob()[..]).unwrap());
+        return 0;
+    }
+    if leg == "probe" {
+        // can the overlay builder run here at all (root, mount namespaces, overlayfs)?
+        let id = sccache::util::Digest::reader_sync(&toolchain_blob()[..]).unwrap();
+        let case = Sx::parse(&format!("((job #{} 1 1 #2f62 () () ()))", hex(id.as_bytes()))).unwrap();
+        println!("{}", fs_case(&case));
+        return 0;
+    }
+    let stdin = std::io::stdin();
+    let stdout = std::io::stdout();
+    let mut out = std::io::BufWriter::new(stdout.lock());
+    for line in stdin.lock().lines() {
+        let line = line.expect("stdin");
+        let t = line.trim();
+        if t.is_empty() || t.starts_with(';') {
+            writeln!(out, "()").unwrap();
+            continue;
+        }
+        let r = match Sx::parse(t) {
+            Ok(x) => match leg {
+                "calc" => calc(&x),
+                "fs" => fs_case(&x),
+                _ => Sx::L(vec![Sx::sym("unknown_leg")]),
+            },
+            Err(e) => Sx::L(vec![Sx::sym("harness_parse_error"), Sx::B(e.into_bytes())]),
+        };
+        writeln!(out, "{}", r).unwrap();
+        out.flush().unwrap();
+    }
+    0
+}
